@@ -107,6 +107,34 @@ theorem exceededFrom_nonneg (allowed : Int) (rs : List Tagged) (cnt : Nat)
         have h3 : ((cnt + (List.countP (fun x : Tagged => x.2.err.isSome) rs + 1) : Nat) : Int) > allowed := by omega
         rw [decide_eq_true h2, decide_eq_true h3, Bool.true_or]
 
+/-- for EVERY budget (negative ones included): `cancelFunc()` has been called in the loop exactly if a
+failure has been seen and the failures exceed the budget -/
+theorem exceededFrom_eq (allowed : Int) (rs : List Tagged) (cnt : Nat) :
+    exceededFrom allowed cnt rs
+      = decide (0 < failuresT rs ∧ ((cnt + failuresT rs : Nat) : Int) > allowed) := by
+  induction rs generalizing cnt with
+  | nil => simp [exceededFrom, failuresT]
+  | cons r rs ih =>
+    obtain ⟨i, m, e⟩ := r
+    cases e with
+    | none =>
+      have : failuresT ((i, ⟨m, none⟩) :: rs) = failuresT rs := by simp [failuresT]
+      rw [this]
+      simpa [exceededFrom] using ih cnt
+    | some e =>
+      have hF : failuresT ((i, ⟨m, some e⟩) :: rs) = failuresT rs + 1 := by simp [failuresT]
+      rw [hF]
+      simp only [exceededFrom]
+      rw [ih (cnt + 1)]
+      by_cases h1 : ((cnt + 1 : Nat) : Int) > allowed
+      · have h3 : 0 < failuresT rs + 1 ∧ ((cnt + (failuresT rs + 1) : Nat) : Int) > allowed := ⟨by omega, by omega⟩
+        rw [decide_eq_true h1, decide_eq_true h3, Bool.true_or]
+      · rw [decide_eq_false h1, Bool.false_or]
+        apply decide_eq_decide.mpr
+        constructor
+        · rintro ⟨h2, h3⟩; exact ⟨by omega, by omega⟩
+        · rintro ⟨_, h3⟩; exact ⟨by omega, by omega⟩
+
 /-- placement: if every received response of member `i` carries message `f i`, slot `j` ends up with
 `f j` exactly when `j` was received (and exists). -/
 theorem placeAll_getElem? (f : Nat → Option Nat) (rs : List Tagged) (init : List (Option Nat))
